@@ -216,7 +216,7 @@ const sweepMaxLen = 420
 func sweepMasks() []int {
 	if vstat.Thorough() {
 		m := []int{1, 2, 4, 8, 16, 32, 64, 128, 255}
-		for i := 3; i < 255; i += 5 {
+		for i := 3; i < 255; i += 8 {
 			m = append(m, i)
 		}
 		return m
